@@ -57,11 +57,11 @@ const (
 	rOK        reply = "ok"
 )
 
-func rv(b []byte) reply    { return reply("v:" + string(b)) }
-func rb(b bool) reply      { return reply(fmt.Sprintf("b:%v", b)) }
-func rn(n uint32) reply    { return reply(fmt.Sprintf("n:%d", n)) }
-func rf(f float64) reply   { return reply(fmt.Sprintf("f:%v", f)) }
-func rt(k dtKind) reply    { return reply("t:" + dtNames[k]) }
+func rv(b []byte) reply  { return reply("v:" + string(b)) }
+func rb(b bool) reply    { return reply(fmt.Sprintf("b:%v", b)) }
+func rn(n uint32) reply  { return reply(fmt.Sprintf("n:%d", n)) }
+func rf(f float64) reply { return reply(fmt.Sprintf("f:%v", f)) }
+func rt(k dtKind) reply  { return reply("t:" + dtNames[k]) }
 
 // expect computes the model's reply to op and applies its effect. collection(k, kind) implements the shared
 // "find or create a collection of this type" step.
